@@ -55,6 +55,10 @@ def main(argv):
             res.inconclusive.append(str(e))
         except core.HarnessDied as e:
             res.inconclusive.append("harness process died unexpectedly: %s %s" % (e, e.stderr[-300:]))
+        except Exception as e:  # a defect of the machinery itself is never a verdict on the code
+            import traceback
+            traceback.print_exc()
+            res.inconclusive.append("monitor error: %s: %s" % (type(e).__name__, str(e)[:300]))
         return core.finish(res, level=getattr(mod, "LEVEL", "exploration"))
     if cmd == "survey":
         # dev helper: class histogram of observations without writing evidence
